@@ -82,6 +82,18 @@ type c29Case struct {
 		Err string      `json:"err"`
 		V   []c29Sample `json:"v"`
 	} `json:"impl"`
+
+	// concretisation of the finite values: v -> v * scale (0 means 1). avg is homogeneous, so
+	// inputs and predicted outputs are scaled alike; a scale near 2^1023/max drives the running sum of the
+	// real code beyond MaxFloat64 (its incremental-mean branch) while the mean stays finite.
+	scale float64
+}
+
+func (cs *c29Case) sc() float64 {
+	if cs.scale == 0 {
+		return 1
+	}
+	return cs.scale
 }
 
 // c29Conc is the concretisation map (seeded): symbolic label values / metric names -> real strings.
@@ -261,11 +273,14 @@ func c29ErrClass(err error) string {
 	return "other"
 }
 
-func c29ValEq(want c29Val, got float64, sq bool) bool {
+func c29ValEq(want c29Val, got float64, sq bool, scale float64) bool {
 	if want.T == "unk" {
 		return true
 	}
 	w := c29Float(want)
+	if want.T == "f" {
+		w *= scale
+	}
 	if sq {
 		if math.IsNaN(w) {
 			return math.IsNaN(got)
@@ -284,7 +299,7 @@ func c29ValEq(want c29Val, got float64, sq bool) bool {
 		return false
 	}
 	d := math.Abs(w - got)
-	return d <= 1e-12 || d <= 1e-9*math.Abs(w)
+	return d <= 1e-12*scale || d <= 1e-9*math.Abs(w)
 }
 
 type c29Vec map[string]float64 // labels.String() -> value
@@ -301,7 +316,7 @@ func (c c29Conc) vec(ss []c29Sample) (map[string]c29Val, []string) {
 }
 
 // c29CompareVec: "" if got equals the predicted vector, else category and message.
-func (c c29Conc) compareVec(want []c29Sample, sq bool, got promql.Vector) (string, string) {
+func (c c29Conc) compareVec(want []c29Sample, sq bool, scale float64, got promql.Vector) (string, string) {
 	wm, _ := c.vec(want)
 	seen := map[string]bool{}
 	for _, s := range got {
@@ -317,7 +332,7 @@ func (c c29Conc) compareVec(want []c29Sample, sq bool, got promql.Vector) (strin
 		if s.H != nil {
 			return "hist", "unexpected histogram element " + k
 		}
-		if !c29ValEq(w, s.F, sq) {
+		if !c29ValEq(w, s.F, sq, scale) {
 			return "value", fmt.Sprintf("element %s: value %v, reference %s/%d (%s)%s", k, s.F, strconv.FormatInt(w.N, 10), w.D, w.T, map[bool]string{true: " [compared squared]", false: ""}[sq])
 		}
 	}
@@ -374,7 +389,7 @@ func (c c29Conc) compareKG(out c29Out, got promql.Vector) (string, string) {
 			return "dup", "element " + k + " returned twice"
 		}
 		seen[k] = true
-		if !c29ValEq(in.v, s.F, false) {
+		if !c29ValEq(in.v, s.F, false, 1) {
 			return "value", fmt.Sprintf("element %s has value %v, input value was %s", k, s.F, c29Num(in.v))
 		}
 		if in.g != prevG {
@@ -446,7 +461,7 @@ func (c c29Conc) judge(cs *c29Case, qs string, res *promql.Result) c29Verdict {
 	case len(cs.Out.Kg) > 0 || cs.Out.Ord != "" || cs.Q.Op == "limitk":
 		cat, msg = c.compareKG(cs.Out, vec)
 	default:
-		cat, msg = c.compareVec(cs.Out.V, cs.Out.Sq, vec)
+		cat, msg = c.compareVec(cs.Out.V, cs.Out.Sq, cs.sc(), vec)
 	}
 	if cat == "" {
 		return c29Verdict{}
@@ -461,7 +476,7 @@ func (c c29Conc) judge(cs *c29Case, qs string, res *promql.Result) c29Verdict {
 		if cs.Impl.Err != "none" {
 			same = gotErr == cs.Impl.Err
 		} else if gotErr == "none" {
-			c2, _ := c.compareVec(cs.Impl.V, cs.Out.Sq, vec)
+			c2, _ := c.compareVec(cs.Impl.V, cs.Out.Sq, cs.sc(), vec)
 			same = c2 == ""
 		}
 		if same {
@@ -477,6 +492,23 @@ func TestVerifC29(t *testing.T) {
 		verifh.Infra(err.Error())
 		t.Fatal(err)
 	}
+	for i, n := 0, len(cases); i < n; i++ {
+		if cases[i].Q.K == "agg" && cases[i].Q.Op == "avg" && len(cases[i].L) > 1 {
+			mx := 0.0
+			for _, x := range cases[i].L {
+				if x.V.T == "f" {
+					mx = math.Max(mx, math.Abs(c29Float(x.V)))
+				}
+			}
+			if mx == 0 {
+				continue
+			}
+			_, e := math.Frexp(mx)
+			c2 := cases[i]
+			c2.scale = math.Ldexp(1, 1024-e) // the largest value becomes >= 2^1023: any two of them overflow the sum
+			cases = append(cases, c2)
+		}
+	}
 	seed := verifh.Seed()
 	conc := c29MakeConc(seed)
 	rnd := rand.New(rand.NewSource(seed))
@@ -486,6 +518,9 @@ func TestVerifC29(t *testing.T) {
 	var slotCases []int // representative case per slot
 	keyOf := func(cs *c29Case) string {
 		var sb strings.Builder
+		if cs.scale != 0 {
+			sb.WriteString("scaled|")
+		}
 		for _, side := range [][]c29Sample{cs.L, nil, cs.R} {
 			if side == nil {
 				sb.WriteString("|")
@@ -532,7 +567,11 @@ func TestVerifC29(t *testing.T) {
 			pts = append(pts, pt{conc.lset(x.M), slotTime(s), c29Float(x.V)})
 		}
 		for _, x := range cs.L {
-			pts = append(pts, pt{conc.lset(x.M), slotTime(s) + 5, c29Float(x.V)})
+			v := c29Float(x.V)
+			if x.V.T == "f" {
+				v *= cs.sc()
+			}
+			pts = append(pts, pt{conc.lset(x.M), slotTime(s) + 5, v})
 		}
 	}
 	sort.SliceStable(pts, func(i, j int) bool { return pts[i].t < pts[j].t })
@@ -573,6 +612,7 @@ func TestVerifC29(t *testing.T) {
 		nevals   int
 		perKind  = map[string]int{}
 		kfSeen   = map[string]int{}
+		sigSeen  = map[string]int{}
 		errCases int
 		sampled  int
 	)
@@ -584,6 +624,10 @@ func TestVerifC29(t *testing.T) {
 			nviol++
 			if strings.HasPrefix(v.sig, "KF-") {
 				kfSeen[strings.SplitN(v.sig, ":", 2)[0]]++
+			}
+			sigSeen[v.sig]++
+			if sigSeen[v.sig] > 3 { // verifh keeps the first 50 records only: leave room for every signature
+				return
 			}
 			verifh.Violation(v.sig, fmt.Sprintf("[engine delayedNameRemoval=%v] %s", eng == 1, v.msg), map[string]any{"case": cs, "query": qs, "seed": seed})
 		case "drift":
